@@ -173,9 +173,13 @@ func c11Run(c *mc.Ctx) {
 	// big strings: 2^8, 2^12, 2^16 (±1) bytes, starts next to the end and next to every power of two
 	{
 		var evals int64
-		for _, p := range []uint{8, 12, 16} {
-			for _, d := range []int{-1, 0, 1} {
-				l := 1<<p + d
+		{
+			// 2^p ± 1 and every round-number threshold in between (3·2^k, 10^k, 2·10^k, 5·10^k, each ±1)
+			for _, l := range gen.SizesAround(8, 16, []int{-1, 0, 1}) {
+				p := uint(0)
+				for 1<<(p+1) <= l+1 {
+					p++
+				}
 				b := make([]byte, l)
 				for i := range b {
 					b[i] = byte(i*167 + i>>7 + 3)
